@@ -191,3 +191,121 @@ func c14PayloadCond(c *Ctx) {
 	}
 	r.Floor(rule, 3)
 }
+
+// C14 extension `R6b-verbatim` (added after an independently seeded change —
+// DNWithBinary.Parse trimming white space from its input "to tolerate a
+// trailing newline" — was missed): the string form must round-trip the
+// distinguished name for EVERY distinguished name, so the free-form field must
+// reach DistinguishedName verbatim: between the input parameter and the store
+// the only operations are conversions, Split/SplitN and selecting a part.
+func init() {
+	ck := registry["C14"]
+	if ck == nil {
+		return
+	}
+	orig := ck.Run
+	ck.Run = func(c *Ctx) {
+		orig(c)
+		c14Verbatim(c)
+		c.R.Explanation += " Extension R6b VERBATIM: in DNWithBinary.Parse the value stored into DistinguishedName derives from the input parameter through conversions, Split/SplitN and part selection only (no trimming, case mapping or other rewriting call)."
+	}
+}
+
+func c14Verbatim(c *Ctx) {
+	const rule = "R6b-verbatim"
+	p, r := c.P, c.R
+	fn := p.Func(c14Pkg, "DNWithBinary", "Parse")
+	if fn == nil || fn.Blocks == nil {
+		r.Undecided(rule, "DNWithBinary.Parse", "", "not found")
+		return
+	}
+	name := c14Pkg + ".(*DNWithBinary).Parse"
+	n := 0
+	for _, b := range fn.Blocks {
+		for _, in := range b.Instrs {
+			st, ok := in.(*ssa.Store)
+			if !ok {
+				continue
+			}
+			fa, ok := st.Addr.(*ssa.FieldAddr)
+			if !ok {
+				continue
+			}
+			stt, ok := derefType(fa.X.Type()).Underlying().(*types.Struct)
+			if !ok || stt.Field(fa.Field).Name() != "DistinguishedName" {
+				continue
+			}
+			n++
+			construct := fmt.Sprintf("%s: DistinguishedName taken verbatim from the input (store #%d)", name, n)
+			var bad []string
+			reached := false
+			seen := map[ssa.Value]bool{}
+			var walk func(v ssa.Value)
+			walk = func(v ssa.Value) {
+				if v == nil || seen[v] {
+					return
+				}
+				seen[v] = true
+				switch x := v.(type) {
+				case *ssa.Parameter:
+					reached = true
+				case *ssa.Convert:
+					walk(x.X)
+				case *ssa.ChangeType:
+					walk(x.X)
+				case *ssa.Phi:
+					for _, e := range x.Edges {
+						walk(e)
+					}
+				case *ssa.UnOp:
+					switch a := x.X.(type) {
+					case *ssa.IndexAddr:
+						walk(a.X)
+					case *ssa.Alloc:
+						if a.Referrers() != nil {
+							for _, u := range *a.Referrers() {
+								if s, ok := u.(*ssa.Store); ok && s.Addr == ssa.Value(a) {
+									walk(s.Val)
+								}
+							}
+						}
+					default:
+						bad = append(bad, "a load of "+x.X.String())
+					}
+				case *ssa.Call:
+					f := x.Call.StaticCallee()
+					fn := ""
+					if f != nil {
+						fn = f.String()
+					}
+					switch fn {
+					case "bytes.SplitN", "bytes.Split", "strings.SplitN", "strings.Split":
+						walk(x.Call.Args[0])
+					default:
+						if fn == "" {
+							fn = "a dynamic call"
+						}
+						bad = append(bad, fn+" at "+p.Rel(x.Pos()))
+					}
+				case *ssa.Slice:
+					bad = append(bad, "a re-slice at "+p.Rel(x.Pos()))
+				case *ssa.Const:
+					bad = append(bad, "a constant")
+				default:
+					bad = append(bad, fmt.Sprintf("%T", v))
+				}
+			}
+			walk(st.Val)
+			switch {
+			case len(bad) > 0:
+				sort.Strings(bad)
+				r.Fail(rule, construct, p.Rel(st.Pos()), "the name passes through "+strings.Join(bad, ", ")+" before it is stored: a distinguished name that this rewriting changes (trailing or escaped white space, case …) does not round-trip")
+			case !reached:
+				r.Fail(rule, construct, p.Rel(st.Pos()), "the stored name does not derive from the input parameter")
+			default:
+				r.OK(rule, construct, p.Rel(st.Pos()), "parameter → conversions / SplitN / part selection → field")
+			}
+		}
+	}
+	r.Floor(rule, 1)
+}
